@@ -2,7 +2,8 @@
 run on the Coq machine (coq/Proc) and on the real psutil over a fake /proc + recorded system calls.
 
 case = {"kind": "hist", "cls": ..., "evs": [event, ...]} with events
-  ["spawn", pid, start, ppid] ["exit", pid] ["reap", pid] ["clock", d]
+  ["spawn", pid, start, ppid, comm] (comm optional, default "proc") ["thread", pid] (one more thread: stat field 20)
+  ["exit", pid] ["reap", pid] ["clock", d]
   ["new", pid] ["popen", pid] (psutil.Popen over a stub subprocess.Popen with that pid) ["os_enter", o] ["os_exit", o]
   (o.oneshot() block entered / innermost left) ["asdict", o] (o.as_dict(attrs=["ppid"])) ["isrun", o] ["eq", a, b] ["hasheq", a, b] ["ppid", o] ["ctime", o] ["boot"] ["iter"]
   ["set", o, [method, args...]]   method in signal/suspend/resume/terminate/kill/nice/ionice/rlimit/affinity
@@ -20,7 +21,10 @@ BTIME0 = 1500000000
 PID_MAX = 2 ** 31
 PIDS = [0, 1, 2, 3, 7, 2 ** 31 - 1]
 BAD_PIDS = [-1, -7, 5, 2 ** 31, 2 ** 64]
-STARTS = [0, 1, 100, 101, 102, 5000, 2 ** 31, 2 ** 40 + 1]
+STARTS = [b + d for b in (0, 100, 5000, 123456, 2 ** 31, 2 ** 40, 10 ** 12 + 7) for d in (0, 1, 2)]
+# process names: blanks (0-3), parentheses, 15 bytes (the kernel's limit), digits that look like stat fields
+COMMS = ["proc", "a b", "a b c", "w x y z", "(sd-pam)", "a) (b", ") 1 2", "Web Content", "fifteen bytes 15", "x  y", "1 2 3"]
+COMMS = [c[:15] for c in COMMS]
 SIGS = [0, 1, 2, 9, 15, 17, 18, 19, 64]
 SETTER_KINDS = ["signal", "suspend", "resume", "terminate", "kill", "nice", "ionice", "rlimit", "affinity"]
 
@@ -45,6 +49,7 @@ class Shadow:
     def __init__(self):
         self.table = {}     # pid -> [inc, start, zomb]
         self.starts = {}    # pid -> set of starts used
+        self.last_start = {}
         self.nextinc = 0
         self.objs = []      # [pid, start, gone, reused, inc]
         self.depth = {}     # object -> depth of open oneshot blocks
@@ -56,6 +61,7 @@ class Shadow:
         return [p for p in PIDS if p not in self.table]
 
     def spawn(self, pid, start):
+        self.last_start[pid] = start
         self.table[pid] = [self.nextinc, start, False]
         self.starts.setdefault(pid, set()).add(start)
         self.nextinc += 1
@@ -147,7 +153,7 @@ def gen_setter(rng):
     if k == "nice":
         return [k, rng.choice([-20, -1, 0, 5, 19, 40])]
     if k == "ionice":
-        return [k, rng.choice([0, 1, 2, 3, 2, 1]), rng.choice([None, 0, 1, 4, 7, 8, -1])]
+        return [k, rng.choice([0, 1, 2, 3, 2, 1, 2, 4, -1, 2 ** 20]), rng.choice([None, 0, 1, 4, 7, 8, -1])]
     if k == "rlimit":
         return [k, rng.choice([0, 7, 15]), rng.choice([[1, 2], [1024, 4096], [-1, -1], [5], [], [1, 2, 3], [0, 0]])]
     return [k, rng.choice([[0], [1, 0], [2, 2, 1], [], [3], [0, 1, 2, 3], [5, 0]])]
@@ -177,10 +183,16 @@ def gen_history(rng, n_events, flavour):
             feats.add("isrun-alive" if sh.alive(e[1]) else ("isrun-reused" if sh.owned(e[1]) else "isrun-gone"))
         if k in ("eq", "hasheq") and max(e[1], e[2]) < len(sh.objs):
             a, b = sh.objs[e[1]], sh.objs[e[2]]
+            if e[1] != e[2] and a[0] == b[0] and abs(a[1] - b[1]) == 1:
+                feats.add("eq-adjacent-ticks")
             if e[1] != e[2]:
                 feats.add("eq-same-proc" if a[4] == b[4] else ("eq-same-pid-other-proc" if a[0] == b[0] else "eq-other-pid"))
         if k == "clock":
             feats.add("clock")
+        if k == "thread":
+            feats.add("thread")
+        if k == "spawn" and len(e) > 4 and " " in e[4]:
+            feats.add("comm-blanks")
         if k == "iter":
             feats.add("iter")
         evs.append(e)
@@ -199,10 +211,19 @@ def gen_history(rng, n_events, flavour):
         cand = [s for s in STARTS if s not in sh.starts.get(pid, ())]
         if not cand:
             return False
-        emit(["spawn", pid, rng.choice(cand), rng.choice([0, 1, 2])])
+        start = rng.choice(cand)
+        prev = sh.last_start.get(pid)
+        if prev is not None and rng.random() < 0.6:
+            # PID reuse one tick later / earlier than the previous owner's start (adjacent identities)
+            adj = [t for t in (prev + 1, prev - 1) if t >= 0 and t not in sh.starts.get(pid, ())]
+            if adj:
+                start = adj[0] if rng.random() < 0.8 else adj[-1]
+        emit(["spawn", pid, start, rng.choice([0, 1, 2]), rng.choice(COMMS)])
         return True
 
     def query(o):
+        if rng.random() < 0.2 and sh.objs[o][0] in sh.table:
+            emit(["thread", sh.objs[o][0]])
         r = rng.random()
         if r < 0.35:
             emit(["isrun", o])
@@ -259,8 +280,10 @@ def gen_history(rng, n_events, flavour):
             emit(["exit", rng.choice(sorted(sh.table))])
         elif r < 0.22 and sh.table:
             emit(["reap", rng.choice(sorted(sh.table))])
-        elif r < 0.27:
+        elif r < 0.25:
             emit(["clock", rng.choice([-100000, -3, -1, 1, 3, 3600, 10 ** 9])])
+        elif r < 0.27 and sh.table:
+            emit(["thread", rng.choice(sorted(sh.table))])
         elif r < 0.37:
             pid = rng.choice(sorted(sh.table)) if sh.table and rng.random() < 0.85 else rng.choice(PIDS + BAD_PIDS)
             if rng.random() < 0.3 and pid in sh.table:
@@ -313,6 +336,8 @@ def gen_history(rng, n_events, flavour):
             if rng.random() < 0.5:
                 emit(["ctime", o])
             emit(["clock", rng.choice([-5, 3, 86400])])
+            if rng.random() < 0.5:
+                emit(["thread", sh.objs[o][0]])
             if rng.random() < 0.7:
                 emit(["boot"])
             emit(["new", sh.objs[o][0]])
@@ -343,7 +368,7 @@ def gen_history(rng, n_events, flavour):
     order = ["oneshot-set-reused", "popen-set-reused", "set-reused-after-gone", "set-reused", "pid0", "set-gone", "set-zombie", "eq-same-pid-other-proc", "isrun-reused",
              "clock", "eq-same-proc", "isrun-gone", "iter", "set-alive", "isrun-alive", "eq-other-pid"]
     if flavour == "c02":
-        order = ["eq-same-pid-other-proc", "isrun-reused", "clock", "eq-same-proc", "isrun-gone", "set-reused", "iter",
+        order = ["eq-adjacent-ticks", "eq-same-pid-other-proc", "isrun-reused", "clock", "eq-same-proc", "isrun-gone", "set-reused", "iter",
                  "isrun-alive", "eq-other-pid", "set-gone", "set-alive"]
     cls = next((f for f in order if f in feats), "trivial")
     return {"kind": "hist", "cls": cls, "evs": evs}
@@ -370,7 +395,9 @@ def _setter_term(s):
 def _ev_term(e):
     k = e[0]
     if k == "spawn":
-        return "EK (Spawn %s %s %s)" % (G.z(e[1]), G.z(e[2]), G.z(e[3]))
+        return "EK (Spawn %s %s %s %s)" % (G.z(e[1]), G.z(e[2]), G.z(e[3]), G.by(e[4] if len(e) > 4 else "proc"))
+    if k == "thread":
+        return "EK (SpawnThread %s)" % G.z(e[1])
     if k == "exit":
         return "EK (Exit %s)" % G.z(e[1])
     if k == "reap":
@@ -516,7 +543,8 @@ def impl_run(case, coq, env):
 
     def write_proc(pid):
         k = table[pid]
-        fp.add(pid, starttime=k["start"], ppid=k["ppid"], state=b"Z" if k["zomb"] else b"S")
+        fp.add(pid, comm=k["comm"], starttime=k["start"], ppid=k["ppid"], state=b"Z" if k["zomb"] else b"S",
+               num_threads=k["nthr"])
 
     def conv_none(x):
         if x is not None:
@@ -592,6 +620,8 @@ def impl_run(case, coq, env):
         r = objs[a] == objs[b]
         if (objs[a] != objs[b]) == r or not isinstance(r, bool):
             return T("EqNeInconsistent", repr(r))
+        if r and hash(objs[a]) != hash(objs[b]):
+            return T("EqualButHashDiffers")      # equal objects must hash alike
         return r
 
     out = []
@@ -600,9 +630,15 @@ def impl_run(case, coq, env):
             k = e[0]
             mark = len(log)
             if k == "spawn":
-                table[e[1]] = {"inc": state["nextinc"], "start": e[2], "ppid": e[3], "zomb": False}
+                table[e[1]] = {"inc": state["nextinc"], "start": e[2], "ppid": e[3], "zomb": False, "nthr": 1,
+                               "comm": (e[4] if len(e) > 4 else "proc").encode()}
                 state["nextinc"] += 1
                 write_proc(e[1])
+                r = Val(None)
+            elif k == "thread":
+                if e[1] in table:
+                    table[e[1]]["nthr"] += 1
+                    write_proc(e[1])
                 r = Val(None)
             elif k == "exit":
                 if e[1] in table:
